@@ -153,6 +153,24 @@ mod imp {
             }
         }
         fn stmt(&mut self, cls: Class, out: &mut Vec<String>) {
+            if self.rng.chance(1, 9) {
+                // a call site executed several times with ONE global assignment after its first execution
+                // (the site is specialised, the cache is cleared, the site is re-specialised on the miss
+                // path and then runs on the fast path); the callee keeps a fresh string only in a local
+                // across allocations; callee = global function or global closure
+                let k = self.fresh("");
+                let n = 1 + self.rng.below(4);
+                let lit = self.rng.pick(&LITS).to_string();
+                let rounds = 3 + self.rng.below(3);
+                let when = 1 + self.rng.below(2);
+                let def = if self.rng.chance(1, 2) {
+                    format!("fn label{k}(name) {{\n    let open = \"<{lit}\" + name\n    let mut g = \"\"\n    let mut j = 0\n    while j < {n} {{\n        g = g + \"y\"\n        j = j + 1\n    }}\n    let close = name + \">\"\n    return open + \"|\" + close + g\n}}")
+                } else {
+                    format!("fn mklabel{k}(pre) {{\n    return fn(name) {{\n        let open = pre + name\n        let mut g = \"\"\n        let mut j = 0\n        while j < {n} {{\n            g = g + \"y\"\n            j = j + 1\n        }}\n        let close = name + \">\"\n        return open + \"|\" + close + g\n    }}\n}}\nlet label{k} = mklabel{k}(\"<{lit}\")")
+                };
+                out.push(format!("{def}\nlet mut round{k} = 0\nfor r{k} in 0..{rounds} {{\n    if r{k} == {when} {{\n        round{k} = round{k} + 1\n    }}\n    println(label{k}(\"item\"))\n}}\nprintln(round{k})"));
+                return;
+            }
             match self.rng.below(10) {
                 0 | 1 => {
                     let i = self.fresh("i");
@@ -516,6 +534,24 @@ mod imp {
             //   * the closure object of every active frame (a frame only keeps a raw pointer into it).
             let mut fn_roots: Vec<usize> = pre.roots.clone();
             fn_roots.extend(pre.frames.iter().map(|f| f.function));
+            // registers inside the window each running function DECLARES (not the count the frame happens
+            // to record): a live variable is a root whatever the frame record says
+            let mut window_mismatch = None;
+            for (fr, (base, n, _, _)) in pre.frames.iter().zip(pre.vmst.frames.iter()) {
+                let declared = fr.function_num_registers.unwrap_or(*n);
+                if declared != fr.frame_num_registers && window_mismatch.is_none() {
+                    window_mismatch = Some((fr.frame_num_registers, declared));
+                }
+                for k in *base..(*base + declared.max(*n)).min(pre.vmst.registers.len()) {
+                    if let Some(p) = pre.vmst.registers[k] {
+                        fn_roots.push(p);
+                    }
+                }
+            }
+            if let Some((rec, decl)) = window_mismatch {
+                self.problem("frame-record-inconsistent:num_registers".into(),
+                             format!("a frame records {} registers, its function declares {}", rec, decl));
+            }
             let mut audit_roots = fn_roots.clone();
             audit_roots.extend(pre.frames.iter().filter_map(|f| f.closure));
             let reach_model = closure_from(&pre_map, &pre.roots, true); // what the Coq model is asked about
@@ -604,6 +640,8 @@ mod imp {
                         "root"
                     } else if pre.frames.iter().any(|f| f.function == i) {
                         "frame-function"
+                    } else if fn_roots.contains(&i) {
+                        "register-in-declared-window"
                     } else {
                         "edge"
                     };
@@ -687,8 +725,9 @@ mod imp {
                     format!("[{}]", v.join(";"))
                 };
                 let st = &pre.vmst;
-                let frames: Vec<String> = st.frames.iter().map(|(b, n, f, c)| format!("mkFrame {} {} {} {}", b, n, f,
-                    match c { Some(c) => format!("(Some {})", c), None => "None".into() })).collect();
+                let frames: Vec<String> = st.frames.iter().zip(pre.frames.iter()).map(|((b, n, f, c), a)| format!("mkFrame {} {} {} {} {}", b, n, f,
+                    match c { Some(c) => format!("(Some {})", c), None => "None".into() },
+                    a.function_num_registers.unwrap_or(*n))).collect();
                 let vmterm = format!("(mkVm {} [{}] {} {} {} {} {})", ol(&st.registers), frames.join(";"),
                                      nl(st.globals.iter().copied()), ol(&st.globals_by_index),
                                      nl(st.open_upvalues.iter().copied()), nl(st.current_upvalues.iter().copied()),
@@ -697,7 +736,7 @@ mod imp {
                 let cache_after = vm.verif_vm_state().globals_cache;
                 let mut free_sorted = free2.clone();
                 free_sorted.sort();
-                let obs = format!("[{};{};{};{};{}]", nl(post.iter().map(|o| o.index)), nl(free_sorted.iter().copied()),
+                let obs = format!("[{};{};{};{};{};[1]]", nl(post.iter().map(|o| o.index)), nl(free_sorted.iter().copied()),
                                   nl(reach_model.iter().copied()), nl(pre.roots.iter().copied()), nl(cache_after.iter().copied()));
                 self.dumps.push((self.collections, pre.site, q, obs));
             }
